@@ -128,6 +128,29 @@ CLAIMED['C18'] = ('other',
     'taint / typestate rules over the WSGI script AST',
     'DESIGN.md section C18')
 
+CLAIMED['C04'] = ('other',
+    'Two clauses. (1) Information flow: format()\'s raw parameter is read only through the module\'s compact() (or one with the same '
+    'normal form), so the formatted text is a function of the compact form. (2) Abstract interpretation: for every accepted shape v of '
+    'validate() (every return path; bounded variable lengths specialised per length) compact(format(v)) is computed abstractly and '
+    'must consist of the cells of v, position by position (constants by value) - separators inserted by format() are exactly what '
+    'compact() deletes and no digit is lost, duplicated or reordered; no partial operation of format() may fail on an accepted number. '
+    'With C03 this yields validate(format(x)) == validate(x) for all valid x in all presentations. 103 of 119 format functions are '
+    'decided today; the others (documented normalisations ISMN/ISAN/ISIL/MEID, registry-driven hyphenation, rebuilt strings, the US TIN '
+    'family) are listed as undecided.',
+    'Trusted: as C01, plus C03. Options of format() take their defaults. Known finding: pt.cc.format(\'000\') IndexError.',
+    'information-flow rule + abstract interpretation with positional provenance (cells) through format and compact',
+    'DESIGN.md section C04')
+CLAIMED['C12'] = ('other',
+    'Abstract interpretation of every public get_*/info/split function with one required parameter, started from each return path of '
+    'the module\'s validate() (the accepted language): only ValidationError may escape (partial operations proven safe, absorbed, or '
+    'decided on the registry data), get_birth_date returns a date (or None), get_gender only the constants M/F (or None), birth '
+    'year/month an int (or None), and the parts of split() are the positions of the canonical number in order. Relational facts '
+    '(day <= monthrange(year, month)) are tracked so that unguarded date() constructions are proven or reported.',
+    'Trusted: as C01. Not decided: that the returned date is the one the digits encode; getters of de.stnr, gs1_128 and four named sinks. '
+    'Known finding: imsi.info() on numbers with an unregistered MNC.',
+    'abstract interpretation under validate()\'s post-condition',
+    'DESIGN.md section C12')
+
 NOT_APPLICABLE = {
 }
 
